@@ -212,51 +212,51 @@ Qed.
 Theorem serve_total :
   forall tbl opts, route_table_ok tbl opts = true ->
   forall (b : backend), backend_typed b ->
-  forall (method path : bytes) (reqbody : Z) (cfg : tree),
-    snd (serve (compile_table tbl) method path reqbody b cfg) <> Crash.
+  forall (ra : bytes -> bytes -> option Z) (method path : bytes) (reqbody : Z) (cfg : tree),
+    snd (serve ra (compile_table tbl) method path reqbody b cfg) <> Crash.
 Proof.
-  intros tbl opts Htbl b Hb method path reqbody cfg. unfold serve.
+  intros tbl opts Htbl b Hb ra method path reqbody cfg. unfold serve.
   destruct (dispatch (compile_table tbl) method path) as [[row ps]|] eqn:E;
-    [|destruct (router_level (compile_table tbl) method path); simpl; discriminate].
+    [|destruct (ra method path); simpl; discriminate].
   apply dispatch_in in E. destruct (compile_table_routes _ _ Htbl _ E) as [r Hr]. rewrite Hr.
   apply handle_total; assumption.
 Qed.
 
-(* "Unrouted paths get 404", exactly as far as it is true: a request that matches no registration AND that httprouter
-   does not answer by itself ([router_level] = None: no trailing-slash / cleaned-path redirect applies and the path is
-   not registered under another method) is handed to NotFound, which answers 404 with error=true; no backend is reached.
-   FULL STATEMENT of the property text ("unrouted paths get 404", for every non-dispatching method and path) is false of
-   the router: see [unrouted_router_level] and the Example [unrouted_redirect_example]. *)
+(* "Unrouted paths get 404", exactly as far as it is true and tied.  [ra] is httprouter's own choice for a request
+   that matches no registration (trusted, see Http.v): a request the router hands to NotFound is answered 404 with
+   error=true and reaches no backend ... *)
 Theorem unrouted_404 :
-  forall (tbl : list brow) (method path : bytes) (reqbody : Z) (b : backend) (cfg : tree),
+  forall (ra : bytes -> bytes -> option Z) (tbl : list brow) (method path : bytes) (reqbody : Z) (b : backend) (cfg : tree),
     dispatch tbl method path = None ->
-    router_level tbl method path = None ->
-    serve tbl method path reqbody b cfg = ([], Resp 404 false (BJson true true false None)).
-Proof. intros tbl method path reqbody b cfg H Hr. unfold serve. rewrite H, Hr. reflexivity. Qed.
+    ra method path = None ->
+    serve ra tbl method path reqbody b cfg = ([], Resp 404 false (BJson true true false None)).
+Proof. intros ra tbl method path reqbody b cfg H Hr. unfold serve. rewrite H, Hr. reflexivity. Qed.
 
-(* the other unrouted requests: answered by the router itself with 301 / 307 (redirect), 405 or -- OPTIONS -- 200; no
-   handler runs and no backend is reached *)
-Theorem unrouted_router_level :
-  forall (tbl : list brow) (method path : bytes) (reqbody : Z) (b : backend) (cfg : tree) (code : Z),
+(* ... and that is the case for every path outside the modelled region [router_level_possible] (the constraint
+   [router_answer_sound] on the trusted function is what the differential compares on every unrouted case) *)
+Theorem unrouted_404_outside_router_region :
+  forall (ra : bytes -> bytes -> option Z) (tbl : list brow), router_answer_sound tbl ra ->
+  forall (method path : bytes) (reqbody : Z) (b : backend) (cfg : tree),
     dispatch tbl method path = None ->
-    router_level tbl method path = Some code ->
-    serve tbl method path reqbody b cfg = ([], Resp code false BOpaque) /\
-    (code = 301 \/ code = 307 \/ code = 405 \/ code = 200).
-Proof.
-  intros tbl method path reqbody b cfg code H Hr. split; [unfold serve; rewrite H, Hr; reflexivity|].
-  unfold router_level in Hr.
-  destruct (has_tree tbl method && negb (beq method m_connect) && negb (beq path [slash])
-            && (tsr tbl method path || fixed_path tbl method path)).
-  - destruct (beq method m_get); inversion Hr; auto.
-  - destruct (beq method m_options); destruct (allowed tbl method path); inversion Hr; auto.
-Qed.
+    router_level_possible tbl path = false ->
+    serve ra tbl method path reqbody b cfg = ([], Resp 404 false (BJson true true false None)).
+Proof. intros ra tbl Hs method path reqbody b cfg H Hp. apply unrouted_404; [exact H|]. apply Hs. exact Hp. Qed.
+
+(* the other unrouted requests are answered by the router itself, with whatever code it chooses (observed: 301, 307,
+   405, 200): no handler runs and no backend is reached.  The property text's "unrouted paths get 404" is false of them. *)
+Theorem unrouted_router_level :
+  forall (ra : bytes -> bytes -> option Z) (tbl : list brow) (method path : bytes) (reqbody : Z) (b : backend) (cfg : tree) (code : Z),
+    dispatch tbl method path = None ->
+    ra method path = Some code ->
+    serve ra tbl method path reqbody b cfg = ([], Resp code false BOpaque).
+Proof. intros ra tbl method path reqbody b cfg code H Hr. unfold serve. rewrite H, Hr. reflexivity. Qed.
 
 Theorem unrouted_no_backend :
-  forall (tbl : list brow) (method path : bytes) (reqbody : Z) (b : backend) (cfg : tree),
-    dispatch tbl method path = None -> fst (serve tbl method path reqbody b cfg) = [].
+  forall (ra : bytes -> bytes -> option Z) (tbl : list brow) (method path : bytes) (reqbody : Z) (b : backend) (cfg : tree),
+    dispatch tbl method path = None -> fst (serve ra tbl method path reqbody b cfg) = [].
 Proof.
-  intros tbl method path reqbody b cfg H. unfold serve. rewrite H.
-  destruct (router_level tbl method path); reflexivity.
+  intros ra tbl method path reqbody b cfg H. unfold serve. rewrite H.
+  destruct (ra method path); reflexivity.
 Qed.
 
 (* The envelope rules at the level of the server: whatever bytes the path is made of, if it matches a
@@ -264,14 +264,14 @@ Qed.
 Theorem serve_envelope :
   forall tbl opts, route_table_ok tbl opts = true ->
   forall (b : backend), backend_typed b ->
-  forall (method path : bytes) (reqbody : Z) (cfg : tree),
+  forall (ra : bytes -> bytes -> option Z) (method path : bytes) (reqbody : Z) (cfg : tree),
     match dispatch (compile_table tbl) method path with
-    | None => fst (serve (compile_table tbl) method path reqbody b cfg) = [] /\
-              (router_level (compile_table tbl) method path = None ->
-               serve (compile_table tbl) method path reqbody b cfg = ([], default_handler))
+    | None => fst (serve ra (compile_table tbl) method path reqbody b cfg) = [] /\
+              (ra method path = None ->
+               serve ra (compile_table tbl) method path reqbody b cfg = ([], default_handler))
     | Some (row, ps) =>
         exists r, br_route row = Some r /\
-          serve (compile_table tbl) method path reqbody b cfg = handle r ps reqbody b cfg /\
+          serve ra (compile_table tbl) method path reqbody b cfg = handle r ps reqbody b cfg /\
           snd (handle r ps reqbody b cfg) <> Crash /\
           (is_v3 r = true -> present r ps reqbody b cfg ->
              exists st, snd (handle r ps reqbody b cfg) = Resp 200 true (BJson false true true st)) /\
@@ -279,7 +279,7 @@ Theorem serve_envelope :
              snd (handle r ps reqbody b cfg) = unknown_answer r)
     end.
 Proof.
-  intros tbl opts Htbl b Hb method path reqbody cfg.
+  intros tbl opts Htbl b Hb ra method path reqbody cfg.
   destruct (dispatch (compile_table tbl) method path) as [[row ps]|] eqn:E.
   - pose proof (dispatch_in _ _ _ _ _ E) as Hin. destruct (compile_table_routes _ _ Htbl _ Hin) as [r Hr].
     exists r. split; [exact Hr|]. split; [unfold serve; rewrite E, Hr; reflexivity|].
@@ -851,10 +851,10 @@ Section Composed.
       StorageProofs.wf_hist h ->
       Storage.run cf (Storage.init_state cls) h = Some (st, reps) ->
       groups_bounded st ->
-      forall now minimum allowed enow ready (method path : bytes) (reqbody : Z) (cfg : tree),
-        snd (serve (compile_table tbl) method path reqbody (composed_backend cf now st minimum allowed enow ready) cfg) <> Crash.
+      forall now minimum allowed enow ready (ra : bytes -> bytes -> option Z) (method path : bytes) (reqbody : Z) (cfg : tree),
+        snd (serve ra (compile_table tbl) method path reqbody (composed_backend cf now st minimum allowed enow ready) cfg) <> Crash.
   Proof.
-    intros tbl opts Htbl cf cls h st reps HN HN2 Hwf Hrun Hb now minimum allowed enow ready method path reqbody cfg.
+    intros tbl opts Htbl cf cls h st reps HN HN2 Hwf Hrun Hb now minimum allowed enow ready ra method path reqbody cfg.
     eapply serve_total; [exact Htbl|]. eapply backend_typed_reachable; eauto.
   Qed.
 End Composed.
@@ -925,12 +925,12 @@ Theorem route_table_complete :
     (forall r, count_rows (row_is r) tbl = 1%nat /\ count_rows (row_same_path r) tbl = 1%nat) /\
     (* every row of the table has a model case *)
     (forall row, In row tbl -> exists r, route_of_row row = Some r /\ row_is r row = true) /\
-    (* no router option other than NotFound *)
-    (forall o, In o opts -> fst o = "NotFound"%string).
+    (* NotFound is assigned; no router field outside the allowed ones is *)
+    (forall o, In o opts -> In (fst o) allowed_router_opts) /\ (exists o, In o opts /\ fst o = "NotFound"%string).
 Proof.
   intros tbl opts H. pose proof (route_table_ok_rows _ _ H) as Hrows'. unfold route_table_ok in H.
   repeat (apply andb_true_iff in H; destruct H as [H ?]).
-  rename H0 into Hopts, H1 into Hall2, H2 into Hdoc, H3 into Hrows, H4 into Hcnt.
+  rename H0 into Hnf, H1 into Hopts, H2 into Hall2, H3 into Hdoc, H4 into Hrows, H5 into Hcnt.
   assert (Hone : forall r, count_rows (row_is r) tbl = 1%nat /\ count_rows (row_same_path r) tbl = 1%nat).
   { intro r. pose proof (forallb_In _ _ r Hcnt (all_routes_complete r)) as Hr. cbv beta in Hr.
     apply andb_true_iff in Hr as [Hr1 Hr2]. apply Nat.eqb_eq in Hr1. apply Nat.eqb_eq in Hr2. auto. }
@@ -946,7 +946,10 @@ Proof.
     exists r, segs, reg. repeat split; auto.
   - exact Hone.
   - exact Hrows'.
-  - intros o Hin. pose proof (forallb_In _ _ o Hopts Hin) as Ho. cbv beta in Ho. apply String.eqb_eq in Ho. exact Ho.
+  - split.
+    + intros o Hin. pose proof (forallb_In _ _ o Hopts Hin) as Ho. cbv beta in Ho.
+      apply existsb_exists in Ho as [x [Hx He]]. apply String.eqb_eq in He. rewrite He. exact Hx.
+    + apply existsb_exists in Hnf as [o [Ho He]]. apply String.eqb_eq in He. exists o. auto.
 Qed.
 
 (* every row of a table that passes the check is served by a handler for which the envelope lemmas hold *)
@@ -1096,11 +1099,12 @@ Proof. split; [vm_compute; split; [reflexivity|discriminate]|left; vm_compute; r
 Definition kelvin_cfg : tree :=
   Node (KCons (pb "consumer") (Node (KCons (pb "kafka") (Node (KCons (pb "class-name") (Leaf (VStr (pb "kafka"))) KNil)) KNil)) KNil).
 Definition kelvin_afka : bytes := [226; 132; 170] ++ pb "afka".
+Definition kelvin_truncated : bytes := [226; 132] ++ pb "afka".
 
 Example kelvin_sign_names_module :
   present RCfgConsumerDetail [(s_name, kelvin_afka)] 2 example_backend kelvin_cfg /\
   snd (handle RCfgConsumerDetail [(s_name, kelvin_afka)] 2 example_backend kelvin_cfg) = Resp 200 true (BJson false true true None) /\
-  unknown_full RCfgConsumerDetail [(s_name, [226; 132] ++ pb "afka")] example_backend kelvin_cfg.
+  unknown_full RCfgConsumerDetail [(s_name, kelvin_truncated)] example_backend kelvin_cfg.
 Proof. split; [vm_compute; split; [reflexivity|discriminate]|split; [vm_compute; reflexivity|left; vm_compute; reflexivity]]. Qed.
 
 (* a small compiled table: GET /v3/kafka and GET /v3/kafka/:cluster, DELETE /v3/kafka/:cluster/consumer/:consumer *)
@@ -1110,18 +1114,18 @@ Definition mini_table : list brow :=
    mk_brow (pb "DELETE") [BLit (pb "v3"); BLit (pb "kafka"); BParam (pb "cluster"); BLit (pb "consumer"); BParam (pb "consumer")]
            (Some RConsumerDelete)].
 
-(* unrouted requests: NotFound (404), trailing-slash redirect (301), case-fixed path redirect (301), method not allowed
-   (405), OPTIONS (200) -- the property's "unrouted paths get 404" holds of the first kind only *)
-Example unrouted_redirect_example :
-  router_level mini_table (pb "GET") (pb "/v3/no/such/uri") = None /\
-  snd (serve mini_table (pb "GET") (pb "/v3/no/such/uri") 2 example_backend (Node KNil)) = Resp 404 false (BJson true true false None) /\
+(* unrouted requests on that table: outside the region where the router may answer by itself (=> NotFound, 404, for
+   every sound [ra]); inside it (trailing slash, case / "//" / "." variants, another method, the root) *)
+Example unrouted_region_example :
+  dispatch mini_table (pb "GET") (pb "/v3/no/such/uri") = None /\
+  router_level_possible mini_table (pb "/v3/no/such/uri") = false /\
+  router_level_possible mini_table (pb "/v3/kafka/c1/extra") = false /\
   dispatch mini_table (pb "GET") (pb "/v3/kafka/") = None /\
-  router_level mini_table (pb "GET") (pb "/v3/kafka/") = Some 301 /\
-  router_level mini_table (pb "GET") (pb "/V3//Kafka/./c1") = Some 301 /\
-  router_level mini_table (pb "DELETE") (pb "/v3/kafka/c1/consumer/g/") = Some 307 /\
-  router_level mini_table (pb "PUT") (pb "/v3/kafka") = Some 405 /\
-  router_level mini_table (pb "OPTIONS") (pb "/v3/kafka/c1") = Some 200 /\
-  router_level mini_table (pb "OPTIONS") (pb "/nothing") = None.
+  router_level_possible mini_table (pb "/v3/kafka/") = true /\
+  router_level_possible mini_table (pb "/V3//Kafka/./c1") = true /\
+  dispatch mini_table (pb "PUT") (pb "/v3/kafka") = None /\
+  router_level_possible mini_table (pb "/v3/kafka") = true /\
+  router_level_possible mini_table (pb "/./.") = true.
 Proof. repeat split; vm_compute; reflexivity. Qed.
 
 (* an ill-typed backend does crash the handler: the contract is needed *)
